@@ -9,3 +9,6 @@ import RaftWal.Props.C10
 #print axioms RaftWal.C10.fault_model_starts
 #print axioms RaftWal.C10.fault_model_extends_crash_model
 #print axioms RaftWal.C10.restart_needs_the_stronger_invariant
+#print axioms RaftWal.C10.failed_append_stale_bytes_fabricate_an_entry
+#print axioms RaftWal.C10.chain_atomic_with_faults_refuted
+#print axioms RaftWal.C10.chain_atomic_faults_partial
